@@ -115,7 +115,7 @@ def witnesses(tier, seed):
         for (L, s) in [(4, 1), (8, 2), (16, 1), (16, 2), (16, 3), (32, 1), (8, 3)]:
             N = 1 + L * s + 2
             for kind in ('seq', 'fseq'):
-                for variant in ('expr', 'mexpr'):
+                for variant in ('expr', 'mexpr', 'iadd', 'miadd', 'sum', 'msum'):
                     k += 1
                     f0 = k % 2
                     W.append(mk_read(t, [N], [Axis(kind, f0, f0 + L * s, s)], variant))
@@ -123,6 +123,27 @@ def witnesses(tier, seed):
                         W.append(mk_read(t, [3, N], [Axis(kind, 0, 3, 2) if kind == 'seq' else Axis('fseq', 0, 3, 2), Axis(kind, f0, f0 + L * s, s)], variant))
                     if L <= 16 and (k + L) % 3 == 0:
                         W.append(mk_read(t, [2, 3, N], [Axis(kind, 0, 2, 1), Axis(kind, 1, 3, 1), Axis(kind, f0, f0 + L * s, s)], variant))
+    # narrow slices through the vector route: with C selected columns and a SIMD width L > C one vector of the flattened slice spans
+    # several rows (L/C row ends), the opposite regime of the wide family above
+    k = 0
+    for C in (1, 2, 3, 5, 7):
+        for st in (1, 2):
+            R = -(-34 // C)            # at least two 16-lane vectors of elements
+            N = 1 + C * st + 1
+            for kind in ('seq', 'fseq'):
+                for variant in ('expr', 'mexpr', 'iadd', 'miadd', 'sum', 'msum'):
+                    k += 1
+                    t = T3[k % 3]
+                    f1 = k % 2
+                    W.append(mk_read(t, [R + 1, N], [Axis(kind, f1, f1 + R, 1), Axis(kind, f1, f1 + C * st, st)], variant))
+                    if C <= 3 and st == 1:
+                        W.append(mk_read(T3[(k + 1) % 3], [2, R // 2 + 1, N], [Axis(kind, 0, 2, 1), Axis(kind, 0, R // 2 + 1, 1), Axis(kind, f1, f1 + C, 1)], variant))
+    # the diagonal view diag(A) (tensor_diag_views.h): every consumer kind
+    k = 0
+    for M in (1, 2, 3, 4, 5, 8, 9, 16, 17):
+        for variant in ('mutable', 'mexpr', 'miadd', 'msum'):
+            k += 1
+            W.append(mk_read(T3[k % 3], [M, M], [Axis('diag')], variant))
     return group_sort(W)
 
 
